@@ -520,6 +520,150 @@ def check_len_fn(src, which):
     return em.blk(parse_body(body))
 
 
+TYPED_DIR = "stun-types/src/attribute/"
+PERR_EXPRS = [
+    ("StunParseError::InvalidAttributeData", "PErr.invalid"),
+    ("StunParseError::WrongAttributeImplementation", "PErr.wrongImpl"),
+    ("StunParseError::Truncated { expected: $a, actual: $b }", "(PErr.truncated $a $b)"),
+    ("StunParseError::TooLarge { expected: $a, actual: $b }", "(PErr.tooLarge $a $b)"),
+    ("Err($x)", "(Except.error $x)"),
+]
+RAWVAL_EXPRS = [
+    ("raw.value.len()", "raw.value.length"),
+    ("raw.value[..$n]", "(raw.value.take $n)"), ("raw.value[$a..$b]", "((raw.value.take $b).drop $a)"),
+    ("raw.value[$a..]", "(raw.value.drop $a)"), ("raw.value[$i]", "(raw.value.getD $i 0).toNat"),
+    ("raw.value.to_vec()", "raw.value"), ("raw.value", "raw.value"),
+    ("BigEndian::read_u16($d)", "(beNat (List.take 2 $d))"), ("BigEndian::read_u32($d)", "(beNat (List.take 4 $d))"),
+    ("BigEndian::read_u64($d)", "(beNat (List.take 8 $d))"),
+    ("check_len($l, $lo..=$hi)", "(checkLen $l (Bound.included $lo) (Bound.included $hi))"),
+    ("padded_attr_len($x)", "(paddedAttrLen $x)"),
+]
+# per kind: file, result constructor templates, extra leaves
+TYPED_KINDS = {
+    "Username": ("user.rs", [("Ok(Self { user: $x })", "(Except.ok (AttrVal.username $x))")]),
+    "Realm": ("realm.rs", [("Ok(Self { realm: $x })", "(Except.ok (AttrVal.realm $x))")]),
+    "Nonce": ("nonce.rs", [("Ok(Self { nonce: $x })", "(Except.ok (AttrVal.nonce $x))")]),
+    "Software": ("software.rs", [("Ok(Self { software: $x })", "(Except.ok (AttrVal.software $x))")]),
+    "AlternateDomain": ("alternate.rs", [("Ok(Self { domain: $x })", "(Except.ok (AttrVal.alternateDomain $x))")]),
+    "MessageIntegrity": ("integrity.rs", [("(&*raw.value).try_into().unwrap()", "raw.value"),
+                                          ("Ok(Self { hmac })", "(Except.ok (AttrVal.messageIntegrity hmac))")]),
+    "MessageIntegritySha256": ("integrity.rs", [("Ok(Self { hmac: $x })", "(Except.ok (AttrVal.messageIntegritySha256 $x))")]),
+    "Userhash": ("user.rs", [("raw.value[..32].try_into().unwrap()", "(raw.value.take 32)"),
+                             ("Ok(Self { hash })", "(Except.ok (AttrVal.userhash hash))")]),
+    "Fingerprint": ("fingerprint.rs", [("(&*raw.value).try_into().unwrap()", "raw.value"),
+                                       ("bytewise_xor!(4, boxed, Fingerprint::XOR_CONSTANT, 0)", "(xorBytes boxed (fingerprintXorConstant.map UInt8.ofNat))"),
+                                       ("Ok(Self { fingerprint })", "(Except.ok (AttrVal.fingerprint fingerprint))")]),
+    "Priority": ("ice.rs", [("Ok(Self { priority: $x })", "(Except.ok (AttrVal.priority $x))")]),
+    "UseCandidate": ("ice.rs", [("Ok(Self {})", "(Except.ok AttrVal.useCandidate)")]),
+    "IceControlled": ("ice.rs", [("Ok(Self { tie_breaker: $x })", "(Except.ok (AttrVal.iceControlled $x))")]),
+    "IceControlling": ("ice.rs", [("Ok(Self { tie_breaker: $x })", "(Except.ok (AttrVal.iceControlling $x))")]),
+    "ErrorCode": ("error.rs", [("($a..$b).contains($x)", "(decide ($a ≤ $x) && decide ($x < $b))"),
+                               ("Ok(Self { code, reason: $r })", "(Except.ok (AttrVal.errorCode code $r))")]),
+    "PasswordAlgorithm": ("password_algorithm.rs", [("PasswordAlgorithmValue::read($d)", "(pwAlgoValueRead $d)"),
+                                                    ("algorithm.len() as usize", "pwAlgoValueLen"),
+                                                    ("Ok(Self { algorithm })", "(Except.ok (AttrVal.passwordAlgorithm algorithm))")]),
+    "AlternateServer": ("alternate.rs", [("MappedSocketAddr::from_raw(raw)", "(mappedFromRaw raw)"),
+                                         ("Ok(Self { addr })", "(Except.ok (AttrVal.alternateServer addr))")]),
+    "XorMappedAddress": ("xor_addr.rs", [("XorSocketAddr::from_raw(raw)", "(mappedFromRaw raw)"),
+                                         ("Ok(Self { addr: $x })", "(Except.ok (AttrVal.xorMappedAddress $x))")]),
+}
+
+
+def type_code(src, kind, file):
+    from extract_source import xlate
+    m = re.search(r"impl\s+AttributeStaticType\s+for\s+" + kind + r"\s*\{\s*const\s+TYPE\s*:\s*AttributeType\s*=\s*AttributeType\(([^)]+)\)\s*;",
+                  src.get(TYPED_DIR + file))
+    if not m:
+        raise XlateError(f"TYPE of {kind} not found")
+    return xlate(m.group(1), {}, 16)
+
+
+def typed_decoder(src, kind):
+    """`impl TryFrom<&RawAttribute> for <kind>`: the guard (`check_type_and_len` with the range written in the source), the
+    further tests and their order, which error is returned where, and which bytes become which field"""
+    file, extra = TYPED_KINDS[kind]
+    txt = src.get(TYPED_DIR + file)
+    imp = fn_body(txt, r"impl(?:\s*<[^>]*>)?\s+TryFrom\s*<\s*&\s*RawAttribute(?:\s*<[^>]*>)?\s*>\s+for\s+" + kind + r"\s*\{")
+    body = fn_body(imp or "", r"fn\s+try_from\s*\(\s*raw\s*:\s*&RawAttribute\s*\)\s*->\s*Result<Self,\s*Self::Error>\s*\{")
+    if body is None:
+        raise XlateError(f"TryFrom<&RawAttribute> for {kind} not found")
+    code = type_code(src, kind, file)
+    guard = [
+        ("raw.check_type_and_len(Self::TYPE, ..)", f"(checkTypeAndLen raw {code} Bound.unbounded Bound.unbounded)"),
+        ("raw.check_type_and_len(Self::TYPE, ..=$hi)", f"(checkTypeAndLen raw {code} Bound.unbounded (Bound.included $hi))"),
+        ("raw.check_type_and_len(Self::TYPE, $lo..)", f"(checkTypeAndLen raw {code} (Bound.included $lo) Bound.unbounded)"),
+        ("raw.check_type_and_len(Self::TYPE, $lo..=$hi)", f"(checkTypeAndLen raw {code} (Bound.included $lo) (Bound.included $hi))"),
+        ("raw.header.atype", "raw.ty"), ("Self::TYPE", code),
+        ("std::str::from_utf8($d).map_err(|_| StunParseError::InvalidAttributeData)", "(textOf $d)"),
+        ("$x.to_owned()", "$x"),
+    ]
+    if kind == "PasswordAlgorithm":
+        pw_value_shapes(src)
+    if kind == "XorMappedAddress":
+        xb = fn_body(src.get(TYPED_DIR + "address.rs").split("impl XorSocketAddr", 1)[-1],
+                     r"pub\s+fn\s+from_raw\s*\(\s*raw\s*:\s*&RawAttribute\s*\)\s*->\s*Result<Self,\s*StunParseError>\s*\{")
+        if xb is None or re.sub(r"\s+", "", xb) != "letaddr=MappedSocketAddr::from_raw(raw)?;Ok(Self{addr})":
+            raise XlateError("XorSocketAddr::from_raw shape")
+    em = Emitter(exprs=extra + guard + RAWVAL_EXPRS + PERR_EXPRS, state=None, ret="{v}", locals_=["raw"])
+    return em.blk(parse_body(body))
+
+
+def pw_value_shapes(src):
+    txt = src.get(TYPED_DIR + "password_algorithm.rs")
+    imp = impl_body(txt, r"impl\s+PasswordAlgorithmValue\s*\{")
+    ln = fn_body(imp or "", r"fn\s+len\s*\(\s*&self\s*\)\s*->\s*u16\s*\{")
+    if ln is None or re.sub(r"\s+", "", ln) != "0":
+        raise XlateError("PasswordAlgorithmValue::len shape")
+
+
+def pw_value_read(src):
+    """PasswordAlgorithmValue::read (the decoding of one algorithm entry)"""
+    txt = src.get(TYPED_DIR + "password_algorithm.rs")
+    imp = impl_body(txt, r"impl\s+PasswordAlgorithmValue\s*\{")
+    body = fn_body(imp or "", r"fn\s+read\s*\(\s*data\s*:\s*&\[u8\]\s*\)\s*->\s*Result<Self,\s*StunParseError>\s*\{")
+    if body is None:
+        raise XlateError("PasswordAlgorithmValue::read not found")
+    exprs = [
+        ("BigEndian::read_u16(&data[..2])", "(beNat (data.take 2))"),
+        ("BigEndian::read_u16(&data[2..4])", "(beNat ((data.take 4).drop 2))"),
+        ("Ok(match ty { 0x1 => Self::MD5, 0x2 => Self::SHA256, _ => return Err(StunParseError::InvalidAttributeData), })",
+         "(if ty = 1 then Except.ok 1 else if ty = 2 then Except.ok 2 else Except.error PErr.invalid)"),
+    ]
+    em = Emitter(exprs=exprs + PERR_EXPRS, state=None, ret="{v}", locals_=["data"])
+    return em.blk(parse_body(body))
+
+
+def mapped_from_raw(src):
+    """MappedSocketAddr::from_raw (ALTERNATE-SERVER, and the stored form of XOR-MAPPED-ADDRESS)"""
+    txt = src.get(TYPED_DIR + "address.rs")
+    imp = impl_body(txt, r"impl\s+MappedSocketAddr\s*\{")
+    body = fn_body(imp or "", r"pub\s+fn\s+from_raw\s*\(\s*raw\s*:\s*&RawAttribute\s*\)\s*->\s*Result<Self,\s*StunParseError>\s*\{")
+    if body is None:
+        raise XlateError("MappedSocketAddr::from_raw not found")
+    exprs = [
+        ("AddressFamily::from_byte($b)", "(addressFamilyFromByte $b)"),
+        ("IpAddr::V4(Ipv4Addr::from(BigEndian::read_u32($d)))", "(false, List.take 4 $d)"),
+        ("IpAddr::V6(Ipv6Addr::from(octets))", "(true, octets)"),
+        ("Ok(Self { addr: SocketAddr::new(addr, port) })", "(Except.ok (Addr.mk addr.1 addr.2 port))"),
+    ]
+    em = Emitter(exprs=exprs + RAWVAL_EXPRS + PERR_EXPRS,
+                 stmts=[("octets.clone_from_slice($d)", ("octets", "$d"))],
+                 pats=[("AddressFamily::IPV4", "false"), ("AddressFamily::IPV6", "true")],
+                 state=None, ret="{v}", locals_=["raw"])
+    return em.blk(parse_body(body))
+
+
+def address_family_from_byte(src):
+    txt = src.get(TYPED_DIR + "address.rs")
+    imp = impl_body(txt, r"impl\s+AddressFamily\s*\{")
+    body = fn_body(imp or "", r"pub\(crate\)\s+fn\s+from_byte\s*\(\s*byte\s*:\s*u8\s*\)\s*->\s*Result<AddressFamily,\s*StunParseError>\s*\{")
+    if body is None:
+        raise XlateError("AddressFamily::from_byte not found")
+    em = Emitter(exprs=[("Ok(AddressFamily::IPV4)", "(Except.ok false)"), ("Ok(AddressFamily::IPV6)", "(Except.ok true)")] + PERR_EXPRS,
+                 state=None, ret="{v}", locals_=["byte"])
+    return em.blk(parse_body(body))
+
+
 def req_mut(src, name):
     txt = src.get(AGENT)
     imp = impl_body(txt, r"impl\s*<'a>\s*StunRequestMut<'a>\s*\{")
@@ -622,6 +766,11 @@ def items(src):
     yield ("FnAgent", "agentPoll", "(s : State) (now : Time) (ord : List Nat) : State × Out", ap_part("entry"), None)
     yield ("FnAttr", "checkLen", "(len : Nat) (start_bound end_bound : Bound) : Except PErr Unit", lambda: check_len_fn(src, "check_len"), None)
     yield ("FnAttr", "checkTypeAndLen", "(a : RawAttr) (atype : Nat) (start_bound end_bound : Bound) : Except PErr Unit", lambda: check_len_fn(src, "check_type_and_len"), None)
+    yield ("FnTyped", "addressFamilyFromByte", "(byte : Nat) : Except PErr Bool", lambda: address_family_from_byte(src), None)
+    yield ("FnTyped", "mappedFromRaw", "(raw : RawAttr) : Except PErr Addr", lambda: mapped_from_raw(src), None)
+    yield ("FnTyped", "pwAlgoValueRead", "(data : Bytes) : Except PErr Nat", lambda: pw_value_read(src), None)
+    for kind in TYPED_KINDS:
+        yield ("FnTyped", "fromRaw" + kind, "(raw : RawAttr) : Except PErr AttrVal", (lambda k: (lambda: typed_decoder(src, k)))(kind), None)
     yield ("FnMsg", "attrHeaderParse", "(data : Bytes) : Except PErr (Nat × Nat)", lambda: decoder(src, "attr_header"), None)
     yield ("FnMsg", "rawFromBytes", "(data : Bytes) : Except PErr RawAttr", lambda: decoder(src, "raw"), None)
     yield ("FnMsg", "msgTypeFromBytes", "(data : Bytes) : Except PErr Nat", lambda: decoder(src, "mtype"), None)
@@ -659,6 +808,8 @@ def items(src):
 HEADERS = {
     "FnAgent": ["import StunVerif.Agent.Agent", "namespace StunVerif.Gen", "open StunVerif StunVerif.Agent", ""],
     "FnAttr": ["import StunVerif.Attr.Bound", "namespace StunVerif.Gen", "open StunVerif", ""],
+    "FnTyped": ["import StunVerif.Attr.Typed", "import StunVerif.Attr.Bound", "import StunVerif.Gen.FnAttr", "import StunVerif.Gen.Attr", "import StunVerif.Gen.Xor",
+                "namespace StunVerif.Gen", "open StunVerif", "", "/-- `PasswordAlgorithmValue::len` (checked to be the constant 0 in the source) -/", "def pwAlgoValueLen : Nat := 0", ""],
     "FnMsg": ["import StunVerif.Msg.IterState", "import StunVerif.Gen.MsgType", "namespace StunVerif.Gen", "open StunVerif", ""],
     "FnBuilder": ["import StunVerif.Msg.Builder", "namespace StunVerif.Gen", "open StunVerif", ""],
     "FnIntegrity": ["import StunVerif.Msg.ValidateLeaves", "import StunVerif.Gen.MsgType", "namespace StunVerif.Gen", "open StunVerif", ""],
@@ -688,7 +839,6 @@ def generate(repo, gen_dir):
         groups.setdefault(group, []).append(f"def {name} {sig} :=\n  {body}\n")
     if os.environ.get("VERIF_WRITE_FN_SNAPSHOT"):
         json.dump(snap, open(FALLBACK_FILE, "w"), indent=1, ensure_ascii=False)
-        groups.setdefault(group, []).append(f"def {name} {sig} :=\n  {body}\n")
     for group, defs in groups.items():
         lines = ["/- GENERATED by tools/extract_fns.py from /repo's working tree on every run. Do not edit.",
                  "   Each definition is the control flow of the Rust function of the same name, statement by",
